@@ -136,6 +136,8 @@ def affine(t, nv=None, expand=True, _depth=0):
             if all(v % b[1] == 0 for v in a[0].values()) and a[1] % b[1] == 0:
                 return ({k: v // b[1] for k, v in a[0].items()}, a[1] // b[1])
             return ({("div", norm(t[2]), b[1]): 1}, 0)
+        if op in ("Rem", "BitAnd", "BitOr", "BitXor", "Shr"):
+            return ({norm(t0): 1}, 0)       # an opaque value: one atom
         return None
     if t[0] == "local" and nv is not None and expand and _depth < 8:
         ds = nv.defs().get(t[1], [])
